@@ -13,6 +13,10 @@
   * The model mirrors the code with the repair `fixes/C05-colon-address.patch` applied
     (a ':' in the pattern ends the pattern's path; it is never compared with a message
     character).  `bodyUnfixed` keeps the unrepaired cascade for the record.
+  * It also mirrors the repair `fixes/C05-args-overread.patch`: `rtosc_match_args` stops
+    reading (and advancing) `arg_str` at the first mismatch of an alternative, so it never
+    reads behind the NUL of the type string.  `argsGoUnfixed`/`argsUnfixed` keep the
+    unrepaired loop for the record (`args_overread_counterexample` in Props/C05.lean).
   * `atoi`: glibc's `atoi` is `(int) strtol(s, NULL, 10)`; `strtol` saturates at
     `LONG_MAX = 2^63-1`, the conversions `long → int → unsigned` keep the low 32 bits.
 
@@ -211,9 +215,11 @@ def argsGo (args0 : Bytes) : Bytes → Bytes → Bool → Option Bool
         | [] => none
         | x :: _ => if x = 0 then some true else retry
       else retry
-    else match a with                               -- arg_match &= (*pattern++ == *arg_str++)
+    else if am then                                 -- arg_match = arg_match && (*pattern == *arg_str++);
+      match a with                                  -- ++pattern;
       | [] => none
-      | x :: ar => argsGo args0 r ar (am && c == x)
+      | x :: ar => argsGo args0 r ar (c == x)
+    else argsGo args0 r a false                     -- short-circuit: arg_str is neither read nor advanced
 
 /-- `rtosc_match_args(pattern, msg)` with `arg_str = argstr` already located. -/
 def args (p argstr : Bytes) : Option Bool :=
@@ -228,6 +234,45 @@ def args (p argstr : Bytes) : Option Bool :=
         else match argstr with
           | [] => none
           | x :: _ => argsGo argstr r argstr (x = 0)
+
+/-- The loop of the *unrepaired* `rtosc_match_args`
+    (`arg_match &= (*pattern++==*arg_str++)`: `arg_str` is read and advanced once per
+    pattern character, also after a mismatch and after the type string has ended). -/
+def argsGoUnfixed (args0 : Bytes) : Bytes → Bytes → Bool → Option Bool
+  | [], _, _ => none
+  | c :: r, a, am =>
+    if c = 0 then some am
+    else if c = 58 then
+      let retry : Option Bool :=
+        match r with
+        | [] => none
+        | e :: _ =>
+          if e ≠ 0 then argsGoUnfixed args0 r args0 true
+          else match args0 with
+            | [] => none
+            | x :: _ => argsGoUnfixed args0 r args0 (x = 0)
+      if am then
+        match a with
+        | [] => none
+        | x :: _ => if x = 0 then some true else retry
+      else retry
+    else match a with
+      | [] => none
+      | x :: ar => argsGoUnfixed args0 r ar (am && c == x)
+
+/-- the unrepaired `rtosc_match_args` -/
+def argsUnfixed (p argstr : Bytes) : Option Bool :=
+  match p with
+  | [] => none
+  | c :: r =>
+    if c ≠ 58 then some true
+    else match r with
+      | [] => none
+      | e :: _ =>
+        if e ≠ 0 then argsGoUnfixed argstr r argstr true
+        else match argstr with
+          | [] => none
+          | x :: _ => argsGoUnfixed argstr r argstr (x = 0)
 
 /-- `while(!*++msg);` seen from the byte *after* the current one -/
 def skipZeros : Bytes → Option Bytes
